@@ -6,6 +6,10 @@ from units import prelude
 PUB = 'src/server/ca/publishing.rs'
 CA = 'src/api/ca.rs'
 CH = 'src/server/ca/child.rs'
+ASPA = 'src/server/ca/aspa.rs'
+API_ASPA = 'src/api/aspa.rs'
+BGP = 'src/server/ca/bgpsec.rs'
+API_BGP = 'src/api/bgpsec.rs'
 
 
 def build():
@@ -20,10 +24,12 @@ def build():
     U.opaque('KeyIdentifier', 'Clone, Copy, PartialEq, Eq, Hash')
     for t in ['ResourceSet', 'RequestResourceLimit', 'Name', 'CsrInfo', 'RepositoryContact', 'PublishedManifest', 'PublishedCrl',
               'Issued', 'Suspended', 'Unsuspended', 'Received', 'PublishedItemOther']:
-        U.opaque(t, 'Clone', clone_spec=False)
+        U.opaque(t, 'Clone', clone_spec=True)
     U.opaque('ObjectSetRevision', 'Clone, Copy')
     U.opaque('Rsync', 'Clone', module='uri', clone_spec=False)
     U.opaque('Error', '')
+    U.opaque('Asn', 'Clone, Copy, PartialEq, Eq, Hash')
+    U.opaque('PublicKey', 'Clone')
     U.outside('''
 pub mod rrdp { pub use super::Hash; }
 pub type ReceivedCert = CertInfo<Received>;
@@ -32,6 +38,10 @@ pub type SuspendedCert = CertInfo<Suspended>;
 pub type UnsuspendedCert = CertInfo<Unsuspended>;
 pub type PublishedObject = PublishedItem<PublishedItemOther>;
 pub type KrillResult<T> = Result<T, Error>;
+pub type CustomerAsn = Asn;
+pub type ProviderAsn = Asn;
+impl ObjectName { pub fn aspa_from_customer(_c: Asn) -> Self { unimplemented!() } pub fn bgpsec(_a: Asn, _k: KeyIdentifier) -> Self { unimplemented!() } }
+impl PublicKey { pub fn key_identifier(&self) -> KeyIdentifier { unimplemented!() } }
 impl ObjectName { pub fn from_key(_ki: &KeyIdentifier, _extension: &str) -> Self { unimplemented!() } }
 impl Base64 { pub fn to_hash(&self) -> Hash { unimplemented!() } }
 impl Validity { pub fn not_after(&self) -> Time { unimplemented!() } }
@@ -41,11 +51,19 @@ impl Time { pub fn now() -> Time { unimplemented!() } }
 pub uninterp spec fn name_of_key(k: KeyIdentifier, ext: Seq<char>) -> ObjectName;
 pub uninterp spec fn hash_of(b: Base64) -> Hash;
 pub uninterp spec fn not_after(v: Validity) -> Time;
+/// 'the object has expired' at the time remove_expired reads the clock (time is an input)
+pub uninterp spec fn expired(t: Time) -> bool;
 pub assume_specification [ObjectName::from_key] (ki: &KeyIdentifier, extension: &str) -> (r: ObjectName)
     ensures r == name_of_key(*ki, extension@);
 pub assume_specification [Base64::to_hash] (b: &Base64) -> (r: Hash) ensures r == hash_of(*b);
 pub assume_specification [Validity::not_after] (v: &Validity) -> (r: Time) ensures r == not_after(*v);
 pub assume_specification [Time::now] () -> (r: Time);
+pub uninterp spec fn aspa_name(c: Asn) -> ObjectName;
+pub uninterp spec fn bgpsec_name(a: Asn, k: KeyIdentifier) -> ObjectName;
+pub uninterp spec fn pk_ki(k: PublicKey) -> KeyIdentifier;
+pub assume_specification [ObjectName::aspa_from_customer] (c: Asn) -> (r: ObjectName) ensures r == aspa_name(c);
+pub assume_specification [ObjectName::bgpsec] (a: Asn, k: KeyIdentifier) -> (r: ObjectName) ensures r == bgpsec_name(a, k);
+pub assume_specification [PublicKey::key_identifier] (k: &PublicKey) -> (r: KeyIdentifier) ensures r == pk_ki(*k);
 
 // ---- abstraction: a revocation is identified by (serial, expires); revocation_date is the clock ----
 pub open spec fn rev_id(r: Revocation) -> (Serial, Time) { (r.serial, r.expires) }
@@ -56,12 +74,40 @@ impl<T> PublishedItem<T> {
     pub open spec fn rid(&self) -> (Serial, Time) { (self.serial, self.expires) }
 }
 ''')
-    U.struct(CA, 'Revocation', clone='none', derive=[])
-    U.struct(CA, 'Revocations', clone='none', derive=[])
-    U.struct(CA, 'CertInfo', clone='none', derive=[])
+    U.struct(CA, 'Revocation', derive=['Clone'])
+    U.struct(CA, 'Revocations', derive=['Clone'])
+    U.struct(CA, 'CertInfo', derive=['Clone'])
     U.struct(CH, 'ChildCertificateUpdates', clone='none', derive=[])
     U.struct(PUB, 'PublishedItem', clone='none', derive=[])
     U.struct(PUB, 'KeyObjectSet', clone='none', derive=[])
+    U.struct(API_ASPA, 'AspaDefinition', clone='none', derive=[])
+    U.struct(ASPA, 'AspaInfo', clone='none', derive=[])
+    U.struct(ASPA, 'AspaObjectsUpdates', clone='none', derive=[])
+    U.struct(BGP, 'BgpSecCertInfo', clone='none', derive=[])
+    U.struct(BGP, 'BgpSecCertificateUpdates', clone='none', derive=[])
+    U.struct(API_BGP, 'BgpSecAsnKey', derive=['Clone', 'Copy'])
+    U.impl('impl AspaInfo', [
+        U.fn(ASPA, 'AspaInfo', 'customer', ensures=[('is_field', 'r == self.definition.customer')]),
+        U.fn(ASPA, 'AspaInfo', 'expires', ensures=[('is_not_after', 'r == not_after(self.validity)')]),
+    ])
+    U.impl('impl AspaObjectsUpdates', [
+        U.fn(ASPA, 'AspaObjectsUpdates', 'updated', ensures=[('is_field', 'r@ == self.updated@')]),
+        U.fn(ASPA, 'AspaObjectsUpdates', 'removed', ensures=[('is_field', 'r@ == self.removed@')]),
+    ])
+    U.impl('impl BgpSecCertInfo', [
+        U.fn(BGP, 'BgpSecCertInfo', 'name', ensures=[('is_name', 'r == bgpsec_name(self.asn, pk_ki(self.public_key))')]),
+    ])
+    U.impl('impl BgpSecCertificateUpdates', [
+        U.fn(BGP, 'BgpSecCertificateUpdates', 'updated', ensures=[('is_field', 'r@ == self.updated@')]),
+        U.fn(BGP, 'BgpSecCertificateUpdates', 'removed', ensures=[('is_field', 'r@ == self.removed@')]),
+    ])
+    U.add('''impl vstd::std_specs::convert::FromSpecImpl<&BgpSecAsnKey> for ObjectName {
+    open spec fn obeys_from_spec() -> bool { true }
+    open spec fn from_spec(v: &BgpSecAsnKey) -> ObjectName { bgpsec_name(v.asn, v.key) }
+}''')
+    U.impl('impl From<&BgpSecAsnKey> for ObjectName', [
+        U.fn(CA, 'ObjectName', 'from', trait_full='From<&BgpSecAsnKey>', ensures=[('is_name', 'r == bgpsec_name(asn_key.asn, asn_key.key)')]),
+    ])
 
     U.impl('impl Revocation', [
         U.fn(CA, 'Revocation', 'new', ensures=[('fields', 'r.serial == serial, r.expires == expires')]),
@@ -79,6 +125,12 @@ impl<T> PublishedItem<T> {
             }
         }''')]),
     ])
+    U.impl('impl Revocations', [
+        # iter().partition(closure): outside engine V; contract ASSUMED here, checked bounded by engine K (k_c03_remove_expired)
+        U.fn(CA, 'Revocations', 'remove_expired', external_body=True, ensures=[
+            ('keeps_unexpired', 'forall |id: (Serial, Time)| old(self).has(id) && !expired(id.1) ==> final(self).has(id)'),
+            ('adds_nothing', 'forall |id: (Serial, Time)| final(self).has(id) ==> old(self).has(id)')]),
+    ])
     U.impl('impl<T> CertInfo<T>', [
         U.fn(CA, 'CertInfo', 'expires', ensures=[('is_not_after', 'r == not_after(self.validity)')]),
     ])
@@ -90,7 +142,26 @@ impl<T> PublishedItem<T> {
     U.impl('impl PublishedObject', [
         U.fn(PUB, 'PublishedObject', 'for_cert_info', ensures=[
             ('fields', 'r.name == cert.name, r.serial == cert.serial, r.expires == not_after(cert.validity)')]),
+        U.fn(PUB, 'PublishedObject', 'for_aspa', ensures=[
+            ('fields', 'r.name == name, r.serial == aspa_info.serial, r.expires == not_after(aspa_info.validity)')]),
+        U.fn(PUB, 'PublishedObject', 'for_bgpsec_cert_info', ensures=[
+            ('fields', 'r.name == bgpsec_name(cert.asn, pk_ki(cert.public_key)), r.serial == cert.serial, r.expires == cert.expires')]),
     ])
+    inv0 = [
+        ('pre', 'obeys_key_model::<ObjectName>()'),
+        ('monotone', 'forall |id: (Serial, Time)| old(self).revocations.has(id) ==> self.revocations.has(id)'),
+        ('superseded_revoked', '''forall |n: ObjectName| old(self).published_objects@.contains_key(n)
+                    && (!self.published_objects@.contains_key(n)
+                        || self.published_objects@[n] != old(self).published_objects@[n])
+                    ==> #[trigger] self.revocations.has(old(self).published_objects@[n].rid())'''),
+    ]
+    post = [
+        ('monotone', 'forall |id: (Serial, Time)| old(self).revocations.has(id) ==> final(self).revocations.has(id)'),
+        ('superseded_revoked', '''forall |n: ObjectName| old(self).published_objects@.contains_key(n)
+                && (!final(self).published_objects@.contains_key(n)
+                    || final(self).published_objects@[n] != old(self).published_objects@[n])
+                ==> #[trigger] final(self).revocations.has(old(self).published_objects@[n].rid())'''),
+    ]
     inv = [
         ('pre', 'obeys_key_model::<ObjectName>(), cert_updates.unsuspended@.len() == 0'),
         ('monotone', 'forall |id: (Serial, Time)| old(self).revocations.has(id) ==> self.revocations.has(id)'),
@@ -111,5 +182,31 @@ impl<T> PublishedItem<T> {
                 ==> #[trigger] final(self).revocations.has(old(self).published_objects@[n].rid())'''),
              ],
              loops={k: {'invariant': inv} for k in range(4)}),
+        U.fn(PUB, 'KeyObjectSet', 'update_aspas', requires=[('key_model', 'obeys_key_model::<ObjectName>()')], ensures=post,
+             loops={k: {'invariant': inv0} for k in range(2)}),
+        U.fn(PUB, 'KeyObjectSet', 'update_bgpsec_certs', requires=[('key_model', 'obeys_key_model::<ObjectName>()')], ensures=post,
+             loops={k: {'invariant': inv0} for k in range(2)}),
+        U.fn(PUB, 'KeyObjectSet', 'retire',
+             requires=[('key_model', 'obeys_key_model::<ObjectName>()')],
+             ensures=[
+                 ('always_ok', 'r is Ok'),
+                 ('publishes_nothing', 'r is Ok ==> r->Ok_0.published_objects@.len() == 0'),
+                 ('everything_revoked', '''r is Ok ==> forall |n: ObjectName| self.published_objects@.contains_key(n) && !expired(self.published_objects@[n].expires)
+                    ==> #[trigger] r->Ok_0.revocations.has(self.published_objects@[n].rid())'''),
+                 ('keeps_unexpired_revocations', 'r is Ok ==> forall |id: (Serial, Time)| self.revocations.has(id) && !expired(id.1) ==> r->Ok_0.revocations.has(id)'),
+                 ('same_key', 'r is Ok ==> r->Ok_0.signing_cert == self.signing_cert && r->Ok_0.revision == self.revision'),
+             ],
+             loops={0: {'iter': 'vx_it', 'invariant': [
+                 ('pre', 'obeys_key_model::<ObjectName>()'),
+                 ('all', 'vx_it.seq().unref().to_set() == self.published_objects@.values()'),
+                 ('monotone', 'forall |id: (Serial, Time)| self.revocations.has(id) ==> revocations.has(id)'),
+                 ('revoked_or_to_come', '''forall |v: PublishedObject| #![trigger revocations.has(v.rid())] self.published_objects@.values().contains(v) ==> revocations.has(v.rid())
+                    || (exists |j: int| vx_it.index@ <= j < vx_it.seq().len() && #[trigger] vx_it.seq().unref()[j] == v)'''),
+             ]}},
+             ghost=[(('after_loop', 0), '''proof {
+            assert forall |n: ObjectName| self.published_objects@.contains_key(n) implies #[trigger] revocations.has(self.published_objects@[n].rid()) by {
+                assert(self.published_objects@.values().contains(self.published_objects@[n]));
+            }
+        }''')]),
     ])
     return U
